@@ -580,16 +580,19 @@ def cu_case(ctx, cls, k, cs, mat_family, entry="definition", up_to_diagonal=Fals
 
 def gen_cu(ctx, deep):
     rng = ctx.rng
-    full_cross_upto = 3 if deep else 2
-    per_pattern = {3: 8, 4: 4, 5: 3} if not deep else {4: 12, 5: 6}
+    full_cross_upto = 3
+    per_pattern = {4: 12, 5: 6} if deep else {4: 6, 5: 4}
     kmax = 15 if deep else 12
     for cls in CLASSES:
         fams = CLASS_FAMILIES[cls]
         for k in range(1, kmax + 1):
+            heavy = cls == "Qdmcu" and k >= 8          # quadratic depth: about 1 s per case from 12 qubits on
             if k <= 5:
                 pats = [None] + [cs_string(k, p) for p in range(1 << k)]
             elif k + 1 <= OP_MAX_QUBITS:
                 pats = [None] + structured_patterns(rng, k, 12 if deep else 6)
+            elif heavy:
+                pats = structured_patterns(rng, k, 4 if deep else 2)
             elif k <= 12:
                 pats = [None] + structured_patterns(rng, k, 8 if deep else 4)
             else:
@@ -601,6 +604,8 @@ def gen_cu(ctx, deep):
                 continue
             if k <= 5:
                 m_per = per_pattern[k]
+            elif heavy:
+                m_per = 3 if deep else 2
             elif k <= 12:
                 m_per = 6 if deep else 4
             else:
